@@ -105,7 +105,6 @@ EXPORT errno_t _memmove32_s_chk(uint32_t *dest, rsize_t dmax,
         BND_CHK_PTR_BOUNDS(dest, smax);
     } else {
         CHK_DEST_MEM_OVR("memmove32_s", destbos)
-        dmax = destbos;
     }
     CHK_SRC_MEM_NULL_CLEAR("memmove32_s", src)
     CHK_SLEN_MEM_MAX_NOSPC_CLEAR("memmove32_s", smax, RSIZE_MAX_MEM)
